@@ -7,6 +7,8 @@ import Fbr.Lemmas.OvlMerge
 import Fbr.Lemmas.OvlHoare
 import Fbr.Lemmas.OvlInv
 import Fbr.Lemmas.OvlNoUpper
+import Fbr.Lemmas.OvlSimLookup
+import Fbr.Lemmas.OvlSimRO
 
 namespace Fbr.Thm.C10
 open Fbr.Ovl
@@ -192,5 +194,54 @@ theorem no_upper_modifying_fails (d : Disk) (hd : d.upper = none) (ops : List Op
     cases hl : s'.log with
     | nil => rfl
     | cons c rest => exact (h'.2.1 c (by simp [hl])).elim
+
+/-! ## the visible tree is the union
+
+  `liveView s p` is what a client gets by walking the (root-first) path `p` through the overlay
+  in state `s` (LOOKUP per component, then the node's attributes / content / target / xattr from
+  the real inode the overlay would use); `merge d q` is the SPEC at the leaf-first path `q`.
+  `Disk.RootsOK` (every layer root is a directory) is the only assumption on the layers. -/
+
+/-- Whenever the in-memory forest is a valid cache of the disk (`Consistent`: every node keeps
+    exactly the real inodes `scan_childrens`/`new_from_real_inodes` would compute from the disk
+    now, loaded directories list exactly the names that have any), the live view at EVERY path
+    equals the overlayfs union of the layers. -/
+theorem view_is_merge_of_consistent (s : St) (hc : Consistent s) (p : List Name) :
+    liveView s p = merge s.disk p.reverse :=
+  consistent_view_is_merge s hc p
+
+/-- A freshly imported overlay shows exactly the overlayfs union of its layers — for every
+    layer contents (any number of lowers, with or without upper, whiteouts, opaque directories,
+    same names as files and directories in several layers) and every path of any depth. -/
+theorem fresh_view_is_merge (d : Disk) (hr : d.RootsOK) (p : List Name) :
+    liveView (importFs d) p = merge d p.reverse := by
+  have h := import_consistent d hr
+  rw [consistent_view_is_merge _ h.1, h.2]
+
+/-- `view_is_merge`, PARTIAL: after any history of NON-MODIFYING operations (lookup, readdir,
+    read, readlink, getxattr, open read-only, walk — these load directories lazily and so do
+    change the in-memory forest) the live view is still the union of the layers.
+
+    What is missing for the full statement: preservation of `Consistent` by the twelve modifying
+    operations is not proved in Lean.  For those the tie is the correspondence run alone (the
+    harness compares the tree walked through the real `OverlayFs`, live and after a restart,
+    with `merge` of the model's disk after every operation) together with
+    `view_is_merge_of_consistent`. -/
+theorem view_is_merge_partial (d : Disk) (hr : d.RootsOK) (ops : List Op)
+    (hops : ∀ op ∈ ops, op.isModifying = false) (p : List Name) :
+    liveView (run (importFs d) ops) p = merge d p.reverse := by
+  have h0 := import_consistent d hr
+  have h := run_ro_cd d ops hops _ ⟨h0.1, h0.2⟩
+  rw [consistent_view_is_merge _ h.1, h.2]
+
+/-- `op_refines_plain_fs`, PARTIAL (non-modifying operations): they leave the union unchanged,
+    as they leave an ordinary file system unchanged. -/
+theorem op_refines_plain_fs_partial (d : Disk) (hr : d.RootsOK) (ops : List Op)
+    (hops : ∀ op ∈ ops, op.isModifying = false) (op : Op) (hop : op.isModifying = false) :
+    merge (runOp op (run (importFs d) ops)).st.disk = merge d := by
+  have h0 := import_consistent d hr
+  have h := run_ro_cd d ops hops _ ⟨h0.1, h0.2⟩
+  have h' := (runOp_ro_cd d op hop).st h
+  rw [h'.2]
 
 end Fbr.Thm.C10
